@@ -7,10 +7,11 @@
    re-indexing falls (IndexProofs.v).  C05_partial: the sequence of order events (one per acceptance, fill and
    closure, in time order, the last equal to the final state) and the by-state filters of get_orders are validated by the
    correspondence check (including histories of hundreds of bars) and the monitor. *)
-From Coq Require Import ZArith QArith List.
+From Coq Require Import ZArith QArith List Sorted.
 From Basana Require Import Num.DecQ Exchange.Model Exchange.AcctProofs Exchange.StepProofs Exchange.OpProofs
      Exchange.OrderProofs Exchange.LifeProofs Exchange.Prims Exchange.Structure Exchange.LedgerProofs Exchange.FillBounds Exchange.IndexProofs
-     Exchange.Reconfig Exchange.ReconfigProofs.
+     Exchange.Reconfig Exchange.ReconfigProofs
+     Exchange.NoPartial Exchange.EventTimes.
 Import ListNotations.
 Open Scope Q_scope.
 
@@ -124,3 +125,46 @@ Theorem C05_closed_orders_final_under_reconfiguration : forall c initial xs1 xs2
   nth_error (s_orders (snd (xrun (c, init_st initial) (xs1 ++ xs2)))) i = Some o.
 Proof. exact closed_final_reconf. Qed.
 Print Assumptions C05_closed_orders_final_under_reconfiguration.
+
+(* whole history: market and stop orders never fill partially -- in every reachable state such an order has traded
+   nothing or its whole amount, and while it is still open it has traded nothing (its first fill completes it) *)
+Theorem C05_market_and_stop_orders_never_fill_partially : forall c initial ops i o,
+  cfg_ok c -> ops_ok ops ->
+  nth_error (s_orders (run c (init_st initial) ops)) i = Some o ->
+  aon (o_kind o) ->
+  (filled o == 0 \/ filled o == o_amount o) /\ (is_open o = true -> filled o == 0).
+Proof. exact market_stop_never_partial. Qed.
+Print Assumptions C05_market_and_stop_orders_never_fill_partially.
+
+(* the premises are met: a market order bigger than the bar's liquidity is not filled at all (and closed), a smaller
+   one is filled completely *)
+Example C05_never_partial_premises_met :
+  let c := mkCfg [(1%positive, 2%nat); (2%positive, 2%nat)] [] None NoFee (VolShare 25 0) NoLoans in
+  let p := (1%positive, 2%positive) in
+  let ops := [OBar p 60%Z (mkBar 100 100 100 100 10); OCreate KMarket Buy p 5 false false;
+              OCreate KMarket Buy p (3#2) false false; OBar p 120%Z (mkBar 100 101 99 100 10)] in
+  let s := run c (init_st [(2%positive, 1000)]) ops in
+  cfg_ok c /\ ops_ok ops /\
+  map (fun o => (is_open o, Qred (filled o))) (s_orders s) = [(false, 0); (false, 3#2)].
+Proof.
+  cbv zeta. split; [unfold cfg_ok; cbn; discriminate|]. split; [repeat constructor; cbn; discriminate|].
+  vm_compute. reflexivity.
+Qed.
+
+(* whole history: the order events are emitted in time order and none is dated after the clock of the exchange,
+   whatever the operations, as long as the bars arrive in non-decreasing time order (what the dispatcher guarantees) *)
+Theorem C05_order_events_are_in_time_order : forall c initial ops,
+  times_ok None ops ->
+  let s := run c (init_st initial) ops in
+  StronglySorted Z.le (map fst (s_events s)) /\
+  forall t, s_now s = Some t -> Forall (fun e => (fst e <= t)%Z) (s_events s).
+Proof. exact events_in_time_order. Qed.
+Print Assumptions C05_order_events_are_in_time_order.
+
+Example C05_events_premises_met :
+  let c := mkCfg [(1%positive, 2%nat); (2%positive, 2%nat)] [] None NoFee InfLiq NoLoans in
+  let p := (1%positive, 2%positive) in
+  let ops := [OBar p 60%Z (mkBar 100 100 100 100 10); OCreate KMarket Buy p 5 false false;
+              OCreate (KLimit 90) Buy p 1 false false; OBar p 120%Z (mkBar 100 101 99 100 10); OCancel 1%nat] in
+  times_ok None ops /\ map fst (s_events (run c (init_st [(2%positive, 1000)]) ops)) = [60; 60; 120; 120]%Z.
+Proof. cbv zeta. split; [cbn; repeat split; discriminate|]. vm_compute. reflexivity. Qed.
